@@ -331,6 +331,10 @@ def install_real():
     matplotlib.use('Agg')
     bc = importlib.import_module('bycycle')
     assert os.path.realpath(bc.__file__).startswith(os.path.realpath(REPO)), bc.__file__
+    try:
+        importlib.import_module('tqdm')
+    except ImportError:
+        _mod('tqdm', tqdm=_Tqdm.tqdm)      # same pass-through stand-in as on the symbolic side
     m = importlib.import_module('bycycle.cyclepoints.extrema')
     m.filter_signal = filter_signal
     m.compute_filter_length = compute_filter_length
